@@ -141,7 +141,8 @@ Inductive pstep : state -> state -> Prop :=
 | p_ukeys s new : kg s new -> pstep s (set_ukeys s new)
 | p_aux s co pc pv pn ac ro rr : pstep s (set_aux s co pc pv pn ac ro rr)
 | p_movebal s a b d n s' : pay_opt s (User a) (User b) d n = Ok s' -> pstep s s'
-| p_renreq s a b : pstep s (set_reqs s (map (ren_req a b) (reqs s))).
+| p_renreq s a b : pstep s (set_reqs s (map (ren_req a b) (reqs s)))
+| p_reidx s : pstep s (genesis_roundtrip s).
 
 Inductive psteps : state -> state -> Prop :=
 | ps_refl s : psteps s s
@@ -311,14 +312,15 @@ Lemma rotate_psteps allowed kg a b ok s s' : rotate_msg a b ok s = Ok s' -> pste
 Proof.
   unfold rotate_msg. destruct (mem a (rrtok s)); [discriminate|].
   destruct (negb (mem a (secrets s))); [discriminate|]. destruct (negb ok); [discriminate|].
-  destruct (mem b (rotated s)); [discriminate|]. destruct (negb (mem a (accts s))); [discriminate|].
+  destruct (mem b (rotated s)); [discriminate|]. destruct (rot_check s && has_records s b); [discriminate|].
+  destruct (negb (mem a (accts s))); [discriminate|].
   destruct (mem b (accts s)); [discriminate|]. intros H. bind_inv H.
   eapply psteps_trans; [eapply move_bal_psteps; eauto|]. eapply rotate_core_psteps; eauto.
 Qed.
 Lemma rotate_rr_psteps allowed kg a b ok s s' : rotate_rr a b ok s = Ok s' -> psteps allowed kg True s s'.
 Proof.
   unfold rotate_rr. destruct (negb (mem a (rrtok s))); [discriminate|]. destruct (negb ok); [discriminate|].
-  destruct (mem b (rotated s)); [discriminate|]. apply rotate_core_psteps.
+  destruct (mem b (rotated s)); [discriminate|]. destruct (rot_check s && has_records s b); [discriminate|]. apply rotate_core_psteps.
 Qed.
 
 Theorem step_psteps (kg : state -> string -> Prop) s o s' :
@@ -352,7 +354,7 @@ Proof.
     + destruct (ukeys_valid new); [|discriminate]. inv H. apply psteps_one. apply p_ukeys. destruct Hk as [_ Hk]. apply Hk; auto.
   - eapply rotate_psteps; eauto.
   - eapply rotate_rr_psteps; eauto.
-  - inv H. constructor.
+  - inv H. apply psteps_one. apply p_reidx.
 Qed.
 
 (* ================================================================ invariant 1+2: keys are stored folded, unique keys are unique *)
@@ -493,6 +495,7 @@ Proof.
   - eapply KU_ext; [| |exact I]; reflexivity.
   - apply pay_opt_ok in H. destruct H as (E1 & _ & _ & _ & _ & E2 & _). eapply KU_ext; [| |exact I]; auto.
   - eapply KU_ext; [| |exact I]; reflexivity.
+  - eapply KU_ext; [| |exact I]; reflexivity.
 Qed.
 
 (* ---- operations and histories *)
@@ -608,6 +611,7 @@ Proof.
     + intros y Hy. apply in_map_iff in Hy. destruct Hy as (z & <- & Hz). simpl. auto.
     + intros d. rewrite C. f_equal. unfold tips_of. clear. induction (reqs s) as [|x t IH]; simpl; auto.
       destruct (String.eqb (q_denom x) d); simpl; unfold zsum in *; simpl; rewrite ?IH; auto.
+  - eapply QE_ext; [| | |exact I]; reflexivity.
 Qed.
 
 Lemma step_QE s o s' : step s o = Ok s' -> QE s -> QE s'.
@@ -661,6 +665,7 @@ Proof.
   - apply VR_sub. auto.
   - apply VR_sub. auto.
   - apply pay_opt_ok in H. destruct H as (E & _). apply VR_sub. rewrite E. auto.
+  - apply VR_sub. auto.
   - apply VR_sub. auto.
 Qed.
 Lemma psteps_VR kg mv s s' : psteps allowed kg mv s s' -> VR s s'.
@@ -730,6 +735,7 @@ Proof.
   - auto.
   - apply pay_opt_ok in H. destruct H as (_ & _ & E1 & _ & E2 & _). rewrite E1, E2. auto.
   - simpl. split; auto. intros y Hy. apply in_map_iff in Hy. destruct Hy as (z & <- & Hz). simpl. auto.
+  - auto.
 Qed.
 Lemma run_gone qid ops : forall s, gone qid s -> gone qid (run s ops).
 Proof.
@@ -830,7 +836,7 @@ Definition owner_frame (s : state) (o : op) (s' : state) : Prop :=
 Definition bal0 : acct -> string -> Z := fun x d => match x with User _ => 5000 | Gov => 0 end.
 (* the OLD variant of the code: [del_fix = false] (DeleteIdentityRecordById left the index entry
    behind, before commit 9fe909f) and [msg_guard = false] (whole-record write unguarded) *)
-Definition s0 : state := init_state "moniker,username" 0 [0] [1] [6] [0; 1; 2; 3] [0; 1; 2; 3] bal0 false false [].
+Definition s0 : state := init_state "moniker,username" 0 [0] [1] [6] [0; 1; 2; 3] [0; 1; 2; 3] bal0 false false [] false.
 
 Lemma KU_s0 : KU s0.
 Proof. split; intros r; simpl; tauto. Qed.
@@ -923,6 +929,7 @@ Proof.
   - intros r' Hr. auto.
   - intros r' Hr. auto.
   - apply pay_opt_ok in H. destruct H as (E & _). intros r' Hr. rewrite E in Hr. auto.
+  - intros r' Hr. auto.
   - intros r' Hr. auto.
 Qed.
 Lemma psteps_WR allowed kg mv s s' : (forall id w, ~ allowed id w) -> ~ mv -> psteps allowed kg mv s s' -> WR s s'.
